@@ -220,6 +220,10 @@ func checkPair(pc PairCase, scratch string) (key, msg string, out uint64) {
 	exp := project(s)
 	fps := stlFPS(s)
 	outp := filepath.Join(dir, sh.out+pc.DestExt)
+	if pc.Shape == 1 {
+		// the destination exists already (an older, longer export): the conversion replaces it
+		os.WriteFile(outp, bytes.Repeat([]byte("1\n00:00:09,000 --> 00:00:10,000\nstale\n\n"), 400), 0o644)
+	}
 	func() {
 		defer func() {
 			if e := recover(); e != nil {
@@ -577,13 +581,14 @@ func abs64(x int64) int64 {
 // ---------- (iii) CLI ----------
 
 type CLICase struct {
-	Sub    string   `json:"subcommand"`
-	Args   []string `json:"args"`
-	Doc    string   `json:"doc"`
-	SrcExt string   `json:"src_ext"`
-	Data   []byte   `json:"data"`
-	Dest   string   `json:"dest_ext"`
-	OpIdx  int      `json:"op"`
+	Sub     string   `json:"subcommand"`
+	Args    []string `json:"args"`
+	Doc     string   `json:"doc"`
+	SrcExt  string   `json:"src_ext"`
+	Data    []byte   `json:"data"`
+	Dest    string   `json:"dest_ext"`
+	OpIdx   int      `json:"op"`
+	InPlace bool     `json:"in_place,omitempty"` // -o names the (first) input file
 }
 
 func maskSTLDates(b []byte, ext string) []byte {
@@ -611,6 +616,13 @@ func checkCLI(cc CLICase, bin, scratch string) (key, msg string, out uint64) {
 		os.WriteFile(in2, cc.Data, 0o644)
 	}
 	outp := filepath.Join(dir, "cli"+cc.Dest)
+	libIn := in
+	if cc.InPlace {
+		// the output path is the input path: the library side works on a copy made beforehand
+		outp = in
+		libIn = filepath.Join(dir, "copy"+cc.SrcExt)
+		os.WriteFile(libIn, cc.Data, 0o644)
+	}
 	args := []string{cc.Sub, "-i", in}
 	if cc.Sub == "merge" {
 		args = append(args, "-i", in2)
@@ -639,7 +651,7 @@ func checkCLI(cc CLICase, bin, scratch string) (key, msg string, out uint64) {
 		return "cli." + cc.Sub + ".hangs", fmt.Sprintf("astisub %s %v on %s did not finish within 2 minutes", cc.Sub, cc.Args, cc.Doc), 0
 	}
 	// library side
-	s, lerr := astisub.Open(astisub.Options{Filename: in, Teletext: astisub.TeletextOptions{Page: page}})
+	s, lerr := astisub.Open(astisub.Options{Filename: libIn, Teletext: astisub.TeletextOptions{Page: page}})
 	if lerr != nil {
 		return "", "", core.Hash64("source unreadable")
 	}
@@ -854,6 +866,15 @@ func run(c *core.Ctx) {
 					continue
 				}
 				cc := CLICase{Sub: sb.name, Args: sb.args, Doc: d.Name, SrcExt: extOf(d.Format), Data: d.Data, Dest: de, OpIdx: sb.op}
+				if de == extOf(d.Format) && d.Format != "ts" && sb.name != "merge" {
+					// the same sub-command once more with -o naming the input file (edit in place)
+					ip := cc
+					ip.InPlace = true
+					if k2, m2, _ := checkCLI(ip, bin, c.Scratch); k2 != "" {
+						c.Violate("cli", k2+".in-place", m2+" (with -o naming the input file)", ip, len(d.Data)+1)
+					}
+					c.Traces++
+				}
 				key, msg, out := checkCLI(cc, bin, c.Scratch)
 				c.Traces++
 				c.Transitions++
